@@ -31,6 +31,9 @@ var Includes = map[string][]string{
 	"C09": {"C08"},
 	"C10": {"C18"},
 	"C12": {"C13"},
+	// a retried job finds the cache in whatever state the failed attempt left it: it completes with the same outputs only
+	// if results do not depend on which cache files exist (C07); a failed job or merge must end the scheduler (C05)
+	"C16": {"C05", "C07"},
 }
 
 // IncludedClosure returns the transitive closure of Includes[id], sorted, without id itself.
